@@ -101,7 +101,7 @@ pub open spec fn batch_ok(items: Seq<ZoomRecord>) -> bool {
         let ghost b0 = bytes@;
 //@at /bytes\.put_f32\(f64_to_f32\(item\.summary\.sum_squares\)\)\?;/ after
         proof {
-            assert(bytes@ == put_zoom_rec(b0, *item));
+            assert(bytes@ == put_zoom_rec(b0, *item)); [[L: loop/record_layout]]
         }
 //@at /let \(out_bytes, uncompressed_buf_size\) = if compress/ before
     proof {
